@@ -136,3 +136,48 @@ package core
 //@   atcall ChargeGasAmsterdam#1 requires arg4 == gasUsed && arg3 <= st.msg.GasLimit && arg2 <= st.msg.GasLimit
 //@   modifies *st.gp
 //@   nowrap
+
+// ---------------------------------------------------------------------------
+// C35: intrinsic gas and calldata floor (core/state_transition.go)
+// Formulas: Yellow Paper g_0, EIP-2028, EIP-2930, EIP-3860, EIP-7623, EIP-7702,
+// EIP-2780/7976/7981 (Amsterdam). Constants are written out (not taken from
+// package params) so that a changed constant is caught.
+// ---------------------------------------------------------------------------
+
+//@ pure func wordsSpec(n int) int { return (n + 31) / 32 }
+
+//@ func toWordSize(size uint64) (w uint64)
+//@   serves C35
+//@   ensures w == wordsSpec(size)
+
+// EIP-2780 intrinsic base: 12000 sender cost + recipient touch + value transfer.
+//@ pure func base2780Spec(isCreate bool, isSelf bool, hasValue bool) int { return 12000 + ite(isSelf, 0, ite(isCreate, 12000, 3000)) + ite(!hasValue || isSelf || isCreate, 0, 6000) }
+
+//@ func intrinsicBaseGasEIP2780(from common.Address, to *common.Address, value *uint256.Int) (gas uint64)
+//@   serves C35
+//@   nilable to, value
+//@   ensures gas == base2780Spec(to == nil, to != nil && *to == from, value != nil && u256val(value) != 0)
+//@   nowrap
+
+//@ pure func intrinsicSpec(base int, hasAuth bool, nAuth int, authCost int, dataLen int, z int, nzGas int, initWords bool, hasAL bool, nAddr int, nKeys int, addrCost int, keyCost int, amsterdam bool) int { return base + ite(hasAuth, nAuth * authCost, 0) + ite(dataLen > 0, (dataLen - z) * nzGas + z * 4 + ite(initWords, wordsSpec(dataLen) * 2, 0), 0) + ite(hasAL, nAddr * addrCost + nKeys * keyCost + ite(amsterdam, nAddr * 1280 + nKeys * 2048, 0), 0) }
+
+//@ pure func intrinsicOf(data []byte, accessList types.AccessList, authList []types.SetCodeAuthorization, from common.Address, to *common.Address, value *uint256.Int, rules params.Rules) int { return intrinsicSpec(ite(rules.IsAmsterdam, base2780Spec(to == nil, to != nil && *to == from, value != nil && u256val(value) != 0), ite(to == nil && rules.IsHomestead, 53000, 21000)), authList != nil, len(authList), ite(rules.IsAmsterdam, 7816, 25000), len(data), bytecount(data, 0), ite(rules.IsIstanbul, 16, 68), to == nil && rules.IsShanghai, accessList != nil, len(accessList), types.storageKeysOf(accessList), ite(rules.IsAmsterdam, 2900, 2400), ite(rules.IsAmsterdam, 2000, 1900), rules.IsAmsterdam) }
+
+// The overflow guards are exact: an error is returned iff the mathematical value does not fit 64 bits.
+//@ func IntrinsicGas(data []byte, accessList types.AccessList, authList []types.SetCodeAuthorization, from common.Address, to *common.Address, value *uint256.Int, rules params.Rules) (gas uint64, err error)
+//@   serves C35
+//@   nilable to, value
+//@   ensures err == nil ==> gas == intrinsicOf(data, accessList, authList, from, to, value, rules)
+//@   ensures (err == nil) == (intrinsicOf(data, accessList, authList, from, to, value, rules) <= 18446744073709551615)
+//@   ensures err != nil ==> err == ErrGasUintOverflow && gas == 0
+//@   nowrap
+
+//@ pure func floorSpec(amsterdam bool, base int, dataLen int, z int, nAddr int, nKeys int) int { return ite(amsterdam, base + (dataLen * 4 + nAddr * 80 + nKeys * 128) * 16, 21000 + ((dataLen - z) * 4 + z) * 10) }
+
+//@ func FloorDataGas(rules params.Rules, from common.Address, to *common.Address, value *uint256.Int, data []byte, accessList types.AccessList) (gas uint64, err error)
+//@   serves C35
+//@   nilable to, value
+//@   ensures err == nil ==> gas == floorSpec(rules.IsAmsterdam, base2780Spec(to == nil, to != nil && *to == from, value != nil && u256val(value) != 0), len(data), bytecount(data, 0), len(accessList), types.storageKeysOf(accessList))
+//@   ensures (err == nil) == (floorSpec(rules.IsAmsterdam, base2780Spec(to == nil, to != nil && *to == from, value != nil && u256val(value) != 0), len(data), bytecount(data, 0), len(accessList), types.storageKeysOf(accessList)) <= 18446744073709551615)
+//@   ensures err != nil ==> err == ErrGasUintOverflow && gas == 0
+//@   nowrap
